@@ -173,64 +173,68 @@ func c22Overrides() map[string][]thunk {
 		return out
 	}
 	return map[string][]thunk{
-		"BasicLit.Kind":  tokThunks(token.INT, token.FLOAT, token.IMAG, token.CHAR, token.STRING),
-		"BinaryExpr.Op":  tokThunks(c22BinaryOps...),
-		"UnaryExpr.Op":   tokThunks(c22UnaryOps...),
-		"AssignStmt.Tok": tokThunks(c22AssignOps...),
-		"AssignStmt.Lhs": lens(exprList, 1, 2),
-		"AssignStmt.Rhs": lens(exprList, 1, 2),
-		"IncDecStmt.Tok": tokThunks(token.INC, token.DEC),
-		"BranchStmt.Tok": tokThunks(token.BREAK, token.CONTINUE, token.GOTO, token.FALLTHROUGH),
-		"BranchStmt.Label": opt(func(g *c22g) interface{} { return g.id() }),
-		"RangeStmt.Tok":  tokThunks(token.ILLEGAL, token.ASSIGN, token.DEFINE),
-		"RangeStmt.Key":  opt(exprT),
-		"RangeStmt.Value": opt(exprT),
-		"Field.Names":    lens(identList, -1, 1, 2),
-		"Field.Type":     opt(exprT),
-		"Field.Tag":      opt(func(g *c22g) interface{} { return g.lit(token.STRING) }),
-		"Ellipsis.Elt":   opt(exprT),
-		"CompositeLit.Type": opt(exprT),
-		"CompositeLit.Elts": lens(exprList, -1, 0, 1, 2),
-		"SliceExpr.Low":  opt(exprT),
-		"SliceExpr.High": opt(exprT),
-		"SliceExpr.Max":  opt(exprT),
+		"BasicLit.Kind":       tokThunks(token.INT, token.FLOAT, token.IMAG, token.CHAR, token.STRING),
+		"BinaryExpr.Op":       tokThunks(c22BinaryOps...),
+		"UnaryExpr.Op":        tokThunks(c22UnaryOps...),
+		"AssignStmt.Tok":      tokThunks(c22AssignOps...),
+		"AssignStmt.Lhs":      lens(exprList, 1, 2),
+		"AssignStmt.Rhs":      lens(exprList, 1, 2),
+		"IncDecStmt.Tok":      tokThunks(token.INC, token.DEC),
+		"BranchStmt.Tok":      tokThunks(token.BREAK, token.CONTINUE, token.GOTO, token.FALLTHROUGH),
+		"BranchStmt.Label":    opt(func(g *c22g) interface{} { return g.id() }),
+		"RangeStmt.Tok":       tokThunks(token.ILLEGAL, token.ASSIGN, token.DEFINE),
+		"RangeStmt.Key":       opt(exprT),
+		"RangeStmt.Value":     opt(exprT),
+		"Field.Names":         lens(identList, -1, 1, 2),
+		"Field.Type":          opt(exprT),
+		"Field.Tag":           opt(func(g *c22g) interface{} { return g.lit(token.STRING) }),
+		"Ellipsis.Elt":        opt(exprT),
+		"CompositeLit.Type":   opt(exprT),
+		"CompositeLit.Elts":   lens(exprList, -1, 0, 1, 2),
+		"SliceExpr.Low":       opt(exprT),
+		"SliceExpr.High":      opt(exprT),
+		"SliceExpr.Max":       opt(exprT),
 		"TypeAssertExpr.Type": opt(exprT),
-		"ArrayType.Len":  []thunk{nilT, exprT, func(g *c22g) interface{} { return ast.Expr(&ast.Ellipsis{Ellipsis: g.p()}) }},
-		"CallExpr.Args":  lens(exprList, -1, 0, 1, 2),
-		"FuncType.Params": []thunk{func(g *c22g) interface{} { return g.fieldList(0) }, func(g *c22g) interface{} { return g.fieldList(2) }},
-		"FuncType.Results": []thunk{nilT, func(g *c22g) interface{} { return g.fieldList(1) }},
-		"FuncDecl.Recv":  []thunk{nilT, func(g *c22g) interface{} { return g.fieldList(1) }, func(g *c22g) interface{} { return &ast.FieldList{List: []*ast.Field{}} /* macro marker */ }},
-		"FuncDecl.Body":  opt(blockT),
-		"IfStmt.Init":    opt(stmtT),
+		"ArrayType.Len":       []thunk{nilT, exprT, func(g *c22g) interface{} { return ast.Expr(&ast.Ellipsis{Ellipsis: g.p()}) }},
+		"CallExpr.Args":       lens(exprList, -1, 0, 1, 2),
+		"FuncType.Params":     []thunk{func(g *c22g) interface{} { return g.fieldList(0) }, func(g *c22g) interface{} { return g.fieldList(2) }},
+		"FuncType.Results":    []thunk{nilT, func(g *c22g) interface{} { return g.fieldList(1) }},
+		"FuncDecl.Recv":       []thunk{nilT, func(g *c22g) interface{} { return g.fieldList(1) }, func(g *c22g) interface{} { return &ast.FieldList{List: []*ast.Field{}} /* macro marker */ }},
+		"FuncDecl.Body":       opt(blockT),
+		"IfStmt.Init":         opt(stmtT),
 		"IfStmt.Else": []thunk{nilT, func(g *c22g) interface{} { return ast.Stmt(g.block(1)) },
 			func(g *c22g) interface{} { return ast.Stmt(&ast.IfStmt{If: g.p(), Cond: g.id(), Body: g.block(0)}) }},
 		"CaseClause.List": lens(exprList, -1, 1, 2),
 		"CaseClause.Body": lens(stmtList, -1, 0, 1, 2),
 		"CommClause.Comm": []thunk{nilT,
 			func(g *c22g) interface{} { return ast.Stmt(&ast.SendStmt{Chan: g.id(), Arrow: g.p(), Value: g.id()}) },
-			func(g *c22g) interface{} { return ast.Stmt(&ast.ExprStmt{X: &ast.UnaryExpr{OpPos: g.p(), Op: token.ARROW, X: g.id()}}) },
+			func(g *c22g) interface{} {
+				return ast.Stmt(&ast.ExprStmt{X: &ast.UnaryExpr{OpPos: g.p(), Op: token.ARROW, X: g.id()}})
+			},
 			func(g *c22g) interface{} {
 				return ast.Stmt(&ast.AssignStmt{Lhs: []ast.Expr{g.id(), g.id()}, TokPos: g.p(), Tok: token.DEFINE, Rhs: []ast.Expr{&ast.UnaryExpr{OpPos: g.p(), Op: token.ARROW, X: g.id()}}})
 			}},
-		"CommClause.Body":  lens(stmtList, -1, 0, 1, 2),
-		"SwitchStmt.Init":  opt(stmtT),
-		"SwitchStmt.Tag":   opt(exprT),
+		"CommClause.Body":     lens(stmtList, -1, 0, 1, 2),
+		"SwitchStmt.Init":     opt(stmtT),
+		"SwitchStmt.Tag":      opt(exprT),
 		"TypeSwitchStmt.Init": opt(stmtT),
 		"TypeSwitchStmt.Assign": []thunk{
-			func(g *c22g) interface{} { return ast.Stmt(&ast.ExprStmt{X: &ast.TypeAssertExpr{X: g.id(), Lparen: g.p(), Rparen: g.p()}}) },
+			func(g *c22g) interface{} {
+				return ast.Stmt(&ast.ExprStmt{X: &ast.TypeAssertExpr{X: g.id(), Lparen: g.p(), Rparen: g.p()}})
+			},
 			func(g *c22g) interface{} {
 				return ast.Stmt(&ast.AssignStmt{Lhs: []ast.Expr{g.id()}, TokPos: g.p(), Tok: token.DEFINE, Rhs: []ast.Expr{&ast.TypeAssertExpr{X: g.id(), Lparen: g.p(), Rparen: g.p()}}})
 			}},
-		"ForStmt.Init":     opt(stmtT),
-		"ForStmt.Cond":     opt(exprT),
-		"ForStmt.Post":     opt(stmtT),
-		"ImportSpec.Name":  []thunk{nilT, func(g *c22g) interface{} { return g.id() }, func(g *c22g) interface{} { return &ast.Ident{NamePos: g.p(), Name: "."} }, func(g *c22g) interface{} { return &ast.Ident{NamePos: g.p(), Name: "_"} }},
-		"ImportSpec.Path":  []thunk{func(g *c22g) interface{} { return g.lit(token.STRING) }},
-		"ValueSpec.Names":  lens(identList, 1, 2),
-		"ValueSpec.Type":   opt(exprT),
-		"ValueSpec.Values": lens(exprList, -1, 1, 2),
+		"ForStmt.Init":       opt(stmtT),
+		"ForStmt.Cond":       opt(exprT),
+		"ForStmt.Post":       opt(stmtT),
+		"ImportSpec.Name":    []thunk{nilT, func(g *c22g) interface{} { return g.id() }, func(g *c22g) interface{} { return &ast.Ident{NamePos: g.p(), Name: "."} }, func(g *c22g) interface{} { return &ast.Ident{NamePos: g.p(), Name: "_"} }},
+		"ImportSpec.Path":    []thunk{func(g *c22g) interface{} { return g.lit(token.STRING) }},
+		"ValueSpec.Names":    lens(identList, 1, 2),
+		"ValueSpec.Type":     opt(exprT),
+		"ValueSpec.Values":   lens(exprList, -1, 1, 2),
 		"ReturnStmt.Results": lens(exprList, -1, 0, 1, 2),
-		"BlockStmt.List":   lens(stmtList, -1, 0, 1, 2),
+		"BlockStmt.List":     lens(stmtList, -1, 0, 1, 2),
 		"FieldList.List": []thunk{nilT, func(g *c22g) interface{} { return []*ast.Field{} }, func(g *c22g) interface{} { return []*ast.Field{g.field(1)} },
 			func(g *c22g) interface{} { return []*ast.Field{g.field(2), g.field(0)} }},
 		"File.Decls": []thunk{nilT, func(g *c22g) interface{} { return []ast.Decl{g.genDecl(token.IMPORT, 1, false)} },
